@@ -63,7 +63,7 @@ def _work(args):
 def concrete_run(pid, case, values, timeout=300):
     """Run the harness body on plain numbers against the real code, fresh interpreter, no shims."""
     payload = json.dumps(dict(pid=pid, case=case, values=values))
-    env = dict(os.environ, PYTHONPATH=f"{ROOT}:/repo", PYTHONHASHSEED='0')
+    env = dict(os.environ, PYTHONPATH=f"{ROOT}:{os.environ.get('FV_REPO', '/repo')}", PYTHONHASHSEED='0')
     p = subprocess.run([REPLAY_PY, '-m', 'fv.replay'], input=payload, capture_output=True, text=True,
                        cwd=ROOT, env=env, timeout=timeout)
     if p.returncode != 0:
